@@ -55,4 +55,60 @@ CHECKS = {
         floors={"any": {"evaluations": 20000, "rejections": 500}},
         assumptions=BEHAVIOUR_ASSUMPTIONS,
     ),
+
+    "C02": dict(
+        level="exploration",
+        rule="small-scope exhaustive: drain/splice with every (start,end), every RangeBounds form, invalid ranges around the boundary and at usize::MAX, "
+             "every next/next_back choice string (<= range length, plus calls after exhaustion), per-item sinks, replacement lengths 0..=K from every source kind, "
+             "erased and typed, from every abstract state on every configuration; plus seeded random range histories; non-trivial = any case (every case removes, "
+             "replaces or must be rejected); distinct = distinct case descriptors",
+        runs=[dict(mode="rel"), dict(mode="dbg", args=["--sub", "light"]), dict(mode="opt", tiers=("thorough",))],
+        floors={"any": {"evaluations": 20000, "rejections": 500}},
+        assumptions=BEHAVIOUR_ASSUMPTIONS,
+    ),
+    "C03": dict(
+        level="exploration",
+        rule="identity registry fed by the element types' own make/Clone/Drop, balanced against what is reachable through the vectors after every step and after "
+             "everything is dropped, over the element / range / clone / lazy families and mixed random histories on three vectors exchanging elements; "
+             "by-value multiset accounting for types without drop glue, by-count for zero-sized; non-trivial = case moved, removed, cloned or destroyed an element",
+        runs=[dict(mode="rel"), dict(mode="dbg", args=["--sub", "light"]), dict(mode="opt", tiers=("thorough",))],
+        floors={"any": {"evaluations": 20000, "drop_events": 10000, "clone_events": 1000}},
+        assumptions=BEHAVIOUR_ASSUMPTIONS,
+    ),
+    "C08": dict(
+        level="exploration",
+        rule="clone / clone_empty / clone_empty_in(Heap|Guard|Stack|StackN) from every abstract state on every Cloneable configuration, followed by every single "
+             "element-wise operation on the original and on the clone; monitors: Vec model of both vectors, Clone-event log (each source id exactly once), storage base "
+             "pointers pairwise distinct; non-trivial = every case",
+        runs=[dict(mode="rel"), dict(mode="dbg", args=["--sub", "light"])],
+        floors={"any": {"evaluations": 5000, "clone_events": 5000}},
+        assumptions=BEHAVIOUR_ASSUMPTIONS,
+    ),
+    "C09": dict(
+        level="exploration",
+        rule="lazy clones of every cloneable source kind (ElementRef, ElementMut, Pop, Remove, SwapRemove, drained Element) x chain depth 1..3 x 0..3 consumptions "
+             "(push, insert, splice, downcast, dropped unused) from every state; monitors: Clone/Drop event counts around creation/copy/drop of the lazy clone, "
+             "exact Clone-event multiset per consumption, registry balance; non-trivial = every case",
+        runs=[dict(mode="rel"), dict(mode="dbg", args=["--sub", "light"])],
+        floors={"any": {"evaluations": 5000, "clone_events": 5000}},
+        assumptions=BEHAVIOUR_ASSUMPTIONS,
+    ),
+    "C10": dict(
+        level="exploration",
+        rule="reserve / reserve_exact / shrink_to_fit / shrink_to (erased and typed) with every argument 0..=len+5 and near usize::MAX from every (len, capacity) state on "
+             "Heap and the instrumented backend, capacity calls interleaved into random histories, push runs for amortisation; monitors: capacity/base pointer before and "
+             "after, backend and allocator event counters, Drop/Clone event counters, Vec model; non-trivial = every case",
+        runs=[dict(mode="rel"), dict(mode="dbg", args=["--sub", "light"])],
+        floors={"any": {"evaluations": 5000, "capacity_calls_checked": 2000, "reserve_noop_checked": 200}},
+        assumptions=BEHAVIOUR_ASSUMPTIONS,
+    ),
+    "C14": dict(
+        level="exploration",
+        rule="iter / iter_mut / IntoIterator / typed iter / drain / splice driven by every next/next_back choice string up to the range length plus six alternating "
+             "calls after exhaustion, IterRef clones taken at several points; monitors: len() and size_hint() before every step and after the last, yielded identities "
+             "against the model (each once, front ascending, back descending), None forever after exhaustion; non-trivial = non-empty range",
+        runs=[dict(mode="rel"), dict(mode="dbg", args=["--sub", "light"])],
+        floors={"any": {"evaluations": 20000}},
+        assumptions=BEHAVIOUR_ASSUMPTIONS,
+    ),
 }
